@@ -39,6 +39,51 @@ func src(n ast.Node) string {
 	return strings.Join(strings.Fields(b.String()), " ")
 }
 
+func runMainSkeleton(f *ast.File) string {
+	skeleton := "<missing>"
+	if fd := funcDecl(f, "runMain"); fd != nil {
+		var seq []string
+		var walk func(n ast.Node, deferred bool)
+		walk = func(n ast.Node, deferred bool) {
+			ast.Inspect(n, func(n ast.Node) bool {
+				switch x := n.(type) {
+				case *ast.ForStmt:
+					seq = append(seq, "for{")
+					walk(x.Body, deferred)
+					seq = append(seq, "}")
+					return false
+				case *ast.DeferStmt:
+					walk(x.Call, true)
+					return false
+				case *ast.GoStmt:
+					return false
+				case *ast.CallExpr:
+					f := src(x.Fun)
+					switch f {
+					case "ParseConfig", "startService", "deleteTempFiles", "net.Listen", "listener.Accept", "listener.Close", "handleConn", "os.Remove":
+						if deferred {
+							f = "defer " + f
+						}
+						seq = append(seq, f+"("+strings.Join(mapSrc(x.Args), ",")+")")
+					}
+				}
+				return true
+			})
+		}
+		walk(fd.Body, false)
+		skeleton = strings.Join(seq, ";")
+	}
+	return skeleton
+}
+
+func mapSrc(es []ast.Expr) []string {
+	var out []string
+	for _, e := range es {
+		out = append(out, src(e))
+	}
+	return out
+}
+
 func funcDecl(f *ast.File, name string) *ast.FuncDecl {
 	for _, d := range f.Decls {
 		if fd, ok := d.(*ast.FuncDecl); ok && fd.Name.Name == name {
@@ -479,6 +524,9 @@ func main() {
 		}
 	}
 	o.def("handleConnDefer", "String", lstr(deferStop), "handleConn: deferred clean-up of an unfinished recording")
+	// runMain: the start-up steps and the accept loop, in source order (calls that matter, with their arguments)
+	skeleton := runMainSkeleton(trMain)
+	o.def("runMainSkeleton", "String", lstr(skeleton), "runMain: configuration, service, clean-up of the output directory, then the loop listen / accept / close the listener / handleConn")
 
 	// ---- thermal-writer (C18)
 	inflight := int64(missingNat)
@@ -491,6 +539,7 @@ func main() {
 			inflight = intLit(n.(*ast.ValueSpec).Values[0])
 		}
 	}
+	o.def("writerRunMainSkeleton", "String", lstr(runMainSkeleton(twMain)), "thermal-writer runMain: configuration, then the loop listen / accept / close the listener / handleConn")
 	o.def("inFlight", "Nat", fmt.Sprint(inflight), "thermal-writer handleConn: const inFlight")
 	chans := []string{}
 	if twHC != nil {
